@@ -694,7 +694,9 @@ def roundtrip_dicts(seed):
     strs1 = [''.join(t) for n in range(0, 2) for t in itertools.product(sy, repeat=n)]
     lists = [list(t) for t in itertools.product(strs1, repeat=2)]
     lists += [list(t) for t in itertools.product(['', 'a', ',', '%'], repeat=3)]
-    vals = list(strs2) + [True, False] + lists
+    # numbers are rendered with str(): a float's exponent sign ('1e+16') must be escaped like any other '+'
+    numbers = [0, -1, 10 ** 20, 1.5, -2.5e-07, 1e16, -1e+22, [1, 2.5], [1e16, 'a']]
+    vals = list(strs2) + [True, False] + lists + numbers
     for k in keys2:
         for v in vals:
             yield {k: v}
@@ -718,7 +720,8 @@ def check_roundtrip(d, rep):
         return 0    # "nothing = nothing" is not a field: not representable, excluded
     expected = {}
     for k, v in d.items():
-        expected[k] = 'true' if v is True else 'false' if v is False else (list(v) if isinstance(v, list) else v)
+        expected[k] = ('true' if v is True else 'false' if v is False else
+                       [str(x) for x in v] if isinstance(v, list) else str(v))
     blanks = any(_has_blank(v) for v in d.values())
     n = 0
     for comma in (True, False):
